@@ -9,8 +9,10 @@ import (
 	"net"
 	"os"
 	"path/filepath"
+	"strconv"
 	"strings"
 	"sync"
+	"sync/atomic"
 	"testing"
 	"time"
 )
@@ -22,6 +24,40 @@ type vfProbeConn struct {
 	RecvLen  int    `json:"received"`
 	Closed   bool   `json:"closed_by_server"`
 	DialErr  bool   `json:"dial_refused"`
+	// twin-right-greeting only: the server side of this connection read what was sent after the greeting
+	Consumed bool `json:"bytes_after_greeting_read_by_server"`
+	RxQueue  int  `json:"unread_bytes_at_server"`
+}
+
+// vfServerRxQueue returns the number of bytes the kernel holds unread for the server-side socket of the
+// loopback connection (serverPort <- clientPort), or -1 when that socket no longer exists.
+func vfServerRxQueue(serverPort, clientPort int) int {
+	b, err := os.ReadFile("/proc/net/tcp")
+	if err != nil {
+		return -1
+	}
+	for _, l := range strings.Split(string(b), "\n")[1:] {
+		f := strings.Fields(l)
+		if len(f) < 5 {
+			continue
+		}
+		la, ra := strings.Split(f[1], ":"), strings.Split(f[2], ":")
+		if len(la) != 2 || len(ra) != 2 {
+			continue
+		}
+		lp, _ := strconv.ParseInt(la[1], 16, 32)
+		rp, _ := strconv.ParseInt(ra[1], 16, 32)
+		if int(lp) != serverPort || int(rp) != clientPort {
+			continue
+		}
+		q := strings.Split(f[4], ":")
+		if len(q) != 2 {
+			continue
+		}
+		rx, _ := strconv.ParseInt(q[1], 16, 64)
+		return int(rx)
+	}
+	return -1
 }
 
 // vfAttackTunnel opens one probing connection of the given kind against the tunnel port.
@@ -68,6 +104,21 @@ func vfAttackTunnel(port int, kind string, hello string, hold time.Duration, wai
 		time.Sleep(20 * time.Millisecond)
 		send("#fail:" + encodeString("injected by the second connection") + "\n")
 		send("#FAIL:" + encodeString("injected by the second connection") + "\n")
+	case "twin-right-greeting":
+		// a second connection that knows the greeting and presents it at the same moment as the genuine one
+		// (waitAdopted here waits for the genuine dial to return): at most one of the two may be adopted.
+		// What it sends afterwards is a fail line; whether the server read it is taken from the kernel's
+		// receive queue of the server-side socket.
+		waitAdopted()
+		for t0, d := time.Now(), time.Duration(time.Now().UnixNano()%300)*time.Microsecond; time.Since(t0) < d; {
+		}
+		send(hello)
+		time.Sleep(150 * time.Millisecond)
+		send("#fail:" + encodeString("injected by the twin connection") + "\n")
+		time.Sleep(400 * time.Millisecond)
+		lp := conn.LocalAddr().(*net.TCPAddr).Port
+		p.RxQueue = vfServerRxQueue(port, lp)
+		p.Consumed = p.RxQueue == 0
 	case "right-greeting":
 		send(hello)
 		time.Sleep(20 * time.Millisecond)
@@ -125,6 +176,16 @@ func TestVF_C17(t *testing.T) {
 	ytag := ""
 	if y := vfInstallYieldPlan(); y != "off" {
 		ytag = "y-" + strings.ReplaceAll(y, ":", "_") + "-"
+		// in the perturbed family every synchronisation point of the adoption path (the per-connection goroutine
+		// of acceptOnTunnel) is additionally held for 1 ms: two greetings arriving together overlap there
+		if pl := vfPlan.Load(); pl != nil {
+			pl.slow = map[int]time.Duration{}
+			for n, pt := range vfLoadPoints() {
+				if pt[0] == "transfer.go" && strings.HasPrefix(pt[2], "trzszTransfer.acceptOnTunnel.func.func") {
+					pl.slow[n] = time.Millisecond
+				}
+			}
+		}
 	}
 	var cases []vfCase
 	// (a greeting split across two writes by somebody who knows it is tried through the genuine connector, see "split")
@@ -155,6 +216,12 @@ func TestVF_C17(t *testing.T) {
 					}})
 				}
 			}
+		}
+		for rep := 0; rep < vfPick(8, 60); rep++ {
+			dir, rep := dir, rep
+			cases = append(cases, vfCase{ID: fmt.Sprintf("%stwin-%s-%d", ytag, dir, rep), Run: func(c *vfCtx) {
+				vfTunnelCase(c, dir, vfTunnelPlan{When: "racing", Connector: "ok", Attackers: []string{"twin-right-greeting"}})
+			}})
 		}
 		for _, conn := range []string{"nil", "dead", "late-500", "late-900", "late-1100", "late-3000", "split", "split"} {
 			for rep := 0; rep < vfPick(2, 10); rep++ {
@@ -268,17 +335,31 @@ func vfTunnelCase(c *vfCtx, dir string, plan vfTunnelPlan) {
 			return false
 		}
 	}
+	genuineDialed := make(chan struct{})
+	var twinConsumed atomic.Bool
 	attack := func(port int, hold time.Duration) {
 		for _, k := range plan.Attackers {
 			k := k
 			wg.Add(1)
 			go func() {
 				defer wg.Done()
-				p := vfAttackTunnel(port, k, hello, hold, func() {
+				wait := func() {
 					for dl := time.Now().Add(5 * time.Second); !adopted() && time.Now().Before(dl); {
 						time.Sleep(time.Millisecond)
 					}
-				})
+				}
+				if k == "twin-right-greeting" {
+					wait = func() {
+						select {
+						case <-genuineDialed:
+						case <-time.After(5 * time.Second):
+						}
+					}
+				}
+				p := vfAttackTunnel(port, k, hello, hold, wait)
+				if p.Consumed {
+					twinConsumed.Store(true)
+				}
 				mu.Lock()
 				probes = append(probes, p)
 				mu.Unlock()
@@ -318,7 +399,12 @@ func vfTunnelCase(c *vfCtx, dir string, plan vfTunnelPlan) {
 			return conn
 		case "racing":
 			attack(port, 4000*time.Millisecond)
-			return dial()
+			if len(plan.Attackers) > 0 && plan.Attackers[0] == "twin-right-greeting" {
+				time.Sleep(20 * time.Millisecond) // the twin is connected and waiting
+			}
+			conn := dial()
+			close(genuineDialed)
+			return conn
 		default: // after adoption
 			conn := dial()
 			go func() {
@@ -375,8 +461,72 @@ func vfTunnelCase(c *vfCtx, dir string, plan vfTunnelPlan) {
 	t0 := time.Now()
 	s.Start(paths, dst)
 	close(started)
-	okS := s.WaitServer(90 * time.Second)
-	okC := s.WaitClient(90 * time.Second)
+	okS, okC := false, false
+	for dl := time.Now().Add(90 * time.Second); time.Now().Before(dl); {
+		if okS = s.WaitServer(100 * time.Millisecond); okS {
+			break
+		}
+		if twinConsumed.Load() {
+			break
+		}
+	}
+	isTwin := len(plan.Attackers) > 0 && plan.Attackers[0] == "twin-right-greeting"
+	if isTwin && okS && !twinConsumed.Load() {
+		// the server may already have returned because of the twin's fail line (its socket is then gone)
+		if so := s.ServerOutcome(); strings.Contains(so.Text, "injected by the twin connection") {
+			twinConsumed.Store(true)
+		}
+	}
+	if twinConsumed.Load() {
+		// the server adopted the twin: was the genuine connection adopted as well, i.e. did the server also
+		// read the client's ACT (it then answers with its CFG on whichever connection it writes to)?
+		time.Sleep(300 * time.Millisecond)
+		wg.Wait()
+		cfgSeen := ""
+		for _, w := range []*vfWire{s.tunIn, s.srvW()} {
+			for _, m := range w.Msgs() {
+				if m.Type == "CFG" {
+					cfgSeen = "the server's CFG went to " + w.name
+				}
+			}
+		}
+		mu.Lock()
+		for _, p := range probes {
+			if p.Kind == "twin-right-greeting" && bytes.Contains(p.Received, []byte("#CFG:")) {
+				cfgSeen = "the server's CFG went to the twin connection"
+			}
+		}
+		mu.Unlock()
+		actInTunnel := false
+		for _, m := range s.tunOut.Msgs() {
+			if m.Type == "ACT" && m.End > 0 {
+				actInTunnel = true
+			}
+		}
+		if actInTunnel {
+			c.Obs("twin_adopted_and_client_act_in_tunnel", 1)
+		}
+		if cfgSeen != "" {
+			c.Obs("twin_adopted_and_cfg_seen", 1)
+		}
+		if !actInTunnel {
+			cfgSeen = "" // the client went on in-band (its own connection was not answered): the ACT did not come through the genuine connection
+		}
+		s.Close()
+		s.WaitServer(20 * time.Second)
+		s.WaitClient(20 * time.Second)
+		if cfgSeen != "" {
+			c.Viol("c17-two-connections-adopted", "plan %+v: a second connection presenting the right greeting at the same moment as the genuine one was adopted (the server read the fail line it sent afterwards) although the genuine connection was adopted too (the client's ACT went into its tunnel connection and the server read it: %s)", plan, cfgSeen)
+			return
+		}
+		// the twin alone was adopted: somebody who knows the id connected first (outside the property)
+		c.Obs("twin_connection_won_the_race", 1)
+		c.Nontrivial(fmt.Sprintf("%s %s twin adopted alone", c.ID, dir))
+		return
+	}
+	if okS {
+		okC = s.WaitClient(90 * time.Second)
+	}
 	if !okS || !okC {
 		c.Slow("c17-not-finished", "plan %+v: server done=%v client done=%v within 90 s", plan, okS, okC)
 		s.Close()
@@ -405,6 +555,13 @@ func vfTunnelCase(c *vfCtx, dir string, plan vfTunnelPlan) {
 			continue
 		}
 		switch p.Kind {
+		case "twin-right-greeting":
+			// not adopted (its fail line was never read): it may have been answered, it must not see protocol bytes
+			if bytes.Contains(p.Received, []byte("#")) {
+				c.Viol("c17-second-connection-got-protocol-bytes", "the twin connection was not adopted (unread bytes at the server: %d) yet received protocol bytes %q", p.RxQueue, vfHead(p.Received, 80))
+				return
+			}
+			c.Obs("twin_connection_not_adopted", 1)
 		case "right-greeting", "late-right-greeting":
 			// arrives after adoption: must not be adopted; whatever it receives must not be transfer data
 			if bytes.Contains(p.Received, []byte("#")) {
